@@ -18,7 +18,9 @@ import (
 	"github.com/glebziz/fs_db/pkg/inline"
 )
 
-// payload must stay identical to harness.payload (splitmix64 stream seeded by the write id).
+// payload must stay identical to harness.payload for the ids and sizes this program writes
+// (splitmix64 stream seeded by the write id; the harness additionally zeroes a run of bytes for ids
+// with id%11 == 8 and more than 16 bytes - no id written here is one of them).
 func payload(id uint64, n int) []byte {
 	b := make([]byte, n)
 	s := id ^ 0x9E3779B97F4A7C15
